@@ -159,11 +159,18 @@ fn limbs(v: u64, width: usize) -> Value {
 }
 
 struct Env {
+    /// a valid .idx file (for the directory scanners)
+    valid_idx: Vec<u8>,
     tmp: PathBuf,
     rt: tokio::runtime::Runtime,
     olds: Vec<Vec<u8>>,
 }
 
+thread_local! { static OBS: std::cell::RefCell<Option<Value>> = const { std::cell::RefCell::new(None) }; }
+/// observations of an entry point beyond its outcome (logged as `obs`, judged by the monitor)
+fn observe(v: Value) {
+    OBS.with(|o| *o.borrow_mut() = Some(v));
+}
 type Val = Box<dyn Any>;
 type ParseFn = fn(&[u8], &Env) -> Result<Val, String>;
 type RtFn = fn(Val, &[u8], &Env) -> Value;
@@ -611,6 +618,118 @@ fn p_shmem(b: &[u8], _: &Env) -> Result<Val, String> {
         None => Err("not a control block".into()),
     }
 }
+/// Directory entry names are disk input too: the input is a list of file names (one per line, raw bytes);
+/// they are created next to one valid .idx, .lru and data file and the real directory scanners run over
+/// the directory.  Files whose name ends in .idx / .lru (any case) get valid content of that kind, so
+/// that a look-alike which a scanner accepts does not make the scan fail for its content.
+const VALID_IDX_NAME: &str = "0fffffffff.idx";
+const VALID_LRU_NAME: &str = "ffffffffffffffff.lru";
+const VALID_DATA_NAME: &str = "data.000";
+fn hostile_names(b: &[u8]) -> Vec<Vec<u8>> {
+    let mut out: Vec<Vec<u8>> = Vec::new();
+    for n in b.split(|&c| c == b'\n') {
+        let valid = [VALID_IDX_NAME, VALID_LRU_NAME, VALID_DATA_NAME, "extract_bu"];
+        if n.is_empty() || n.len() > 255 || n.contains(&b'/') || n.contains(&0) || n == b"." || n == b".." || valid.iter().any(|v| v.as_bytes().eq_ignore_ascii_case(n)) {
+            continue;
+        }
+        if !out.iter().any(|x| x == n) && out.len() < 400 {
+            out.push(n.to_vec());
+        }
+    }
+    out
+}
+fn p_dirnames(b: &[u8], env: &Env) -> Result<Val, String> {
+    use cascette_cache::config::DiskCacheConfig;
+    use cascette_cache::key::RibbitKey;
+    use cascette_cache::traits::AsyncCache;
+    use cascette_client_storage::index::IndexManager;
+    use cascette_client_storage::lru::LruManager;
+    use cascette_client_storage::lru::lru_file::filename_to_generation;
+    use cascette_client_storage::storage::ArchiveManager;
+    use cascette_client_storage::storage::compaction::ExtractorCompactorBackup;
+    use cascette_client_storage::storage::parse_data_filename;
+    use std::os::unix::ffi::OsStrExt;
+    let dir = env.tmp.join("names");
+    let _ = std::fs::remove_dir_all(&dir);
+    std::fs::create_dir_all(&dir).map_err(es)?;
+    let lru = build_lru_seed(5);
+    let data = vec![0x5Au8; 64];
+    std::fs::write(dir.join(VALID_IDX_NAME), &env.valid_idx).map_err(es)?;
+    std::fs::write(dir.join(VALID_LRU_NAME), &lru).map_err(es)?;
+    std::fs::write(dir.join(VALID_DATA_NAME), &data).map_err(es)?;
+    let names = hostile_names(b);
+    let mut created = 0usize;
+    let mut nonutf8 = false;
+    for n in &names {
+        let lower = n.to_ascii_lowercase();
+        let content: &[u8] = if lower.ends_with(b".idx") { &env.valid_idx } else if lower.ends_with(b".lru") { &lru } else { &data };
+        if std::fs::write(dir.join(std::ffi::OsStr::from_bytes(n)), content).is_ok() {
+            created += 1;
+            nonutf8 |= std::str::from_utf8(n).is_err();
+        }
+    }
+    let mut first_err: Option<String> = None;
+    let mut note = |r: Result<(), String>| {
+        if let Err(e) = r
+            && first_err.is_none()
+        {
+            first_err = Some(e);
+        }
+    };
+    // the pure name parsers
+    for n in &names {
+        if let Ok(s) = std::str::from_utf8(n) {
+            let _ = filename_to_generation(s);
+            let _ = parse_data_filename(s);
+        }
+    }
+    // .idx discovery
+    let mut im = IndexManager::new(&dir);
+    let r = env.rt.block_on(im.load_all()).map_err(es);
+    let vf_idx = r.is_ok() && im.loaded_buckets().contains(&0x0f);
+    note(r);
+    // .lru discovery, maintenance cycle (loads the newest checkpoint, removes stale ones)
+    let latest = LruManager::find_latest_lru_file(&dir);
+    let vf_lru = latest.as_ref().is_some_and(|(g, _)| *g == u64::MAX);
+    let mut lm = LruManager::new(8, dir.clone());
+    let r = env.rt.block_on(lm.run_cycle(0, 0)).map(|_| ()).map_err(es);
+    note(r);
+    let _ = lm.scan_directory();
+    // data.NNN discovery
+    let mut am = ArchiveManager::new(&dir);
+    let r = env.rt.block_on(am.open_all()).map_err(es);
+    let vf_data = r.is_ok() && am.read_raw(0, 0, 8).is_ok();
+    note(r);
+    // compaction journal discovery
+    note(ExtractorCompactorBackup::load(&dir).map(|_| ()).map_err(es));
+    // disk cache: file counting fallback of size()
+    let vf_cache = match cascette_cache::DiskCache::<RibbitKey>::new(DiskCacheConfig::new(dir.clone())) {
+        Ok(c) => match env.rt.block_on(c.size()) {
+            Ok(n) => n >= 1,
+            Err(e) => {
+                note(Err(e.to_string()));
+                false
+            }
+        },
+        Err(e) => {
+            note(Err(e.to_string()));
+            false
+        }
+    };
+    observe(json!({"names": names.len(), "created": created, "nonutf8": nonutf8, "vf_idx": vf_idx, "vf_lru": vf_lru, "vf_data": vf_data, "vf_cache": vf_cache}));
+    let _ = std::fs::remove_dir_all(&dir);
+    match first_err {
+        None => Ok(unit()),
+        Some(e) => Err(e),
+    }
+}
+fn p_compaction_backup(b: &[u8], env: &Env) -> Result<Val, String> {
+    use cascette_client_storage::storage::compaction::ExtractorCompactorBackup;
+    let dir = env.tmp.join("backup");
+    std::fs::create_dir_all(&dir).map_err(es)?;
+    std::fs::write(dir.join("extract_bu"), b).map_err(es)?;
+    ExtractorCompactorBackup::load(&dir).map(|_| unit()).map_err(es)
+}
 fn p_build_info(b: &[u8], _: &Env) -> Result<Val, String> {
     use cascette_client_storage::build_info::BuildInfoFile;
     let s = std::str::from_utf8(b).map_err(|e| e.to_string())?;
@@ -657,6 +776,8 @@ static FORMATS: &[Fmt] = &[
     Fmt { name: "lru", decomp: false, text: false, parse: p_lru, rt: None, weight: 3 },
     Fmt { name: "shmem", decomp: false, text: false, parse: p_shmem, rt: None, weight: 2 },
     Fmt { name: "build_info", decomp: false, text: true, parse: p_build_info, rt: None, weight: 2 },
+    Fmt { name: "dirnames", decomp: false, text: true, parse: p_dirnames, rt: None, weight: 4 },
+    Fmt { name: "compaction_backup", decomp: false, text: false, parse: p_compaction_backup, rt: None, weight: 1 },
 ];
 fn fmt_index(name: &str) -> Option<usize> {
     FORMATS.iter().position(|f| f.name == name)
@@ -977,6 +1098,81 @@ fn espec_seeds() -> Vec<Seed> {
     v.into_iter().enumerate().map(|(i, s)| Seed { name: format!("espec/{i}"), bytes: s.into_bytes(), real: i >= 11 }).collect()
 }
 
+/// name with the bytes [off, off+len(ins)) of `base` replaced by `ins` (kept at the length of `base` + delta)
+fn name_with(base: &str, off: usize, ins: &[u8]) -> Vec<u8> {
+    let mut n = base.as_bytes().to_vec();
+    if off + ins.len() <= n.len() {
+        n[off..off + ins.len()].copy_from_slice(ins);
+    }
+    n
+}
+/// the hostile name a vector of MC_ParserGuard (format "dirnames") stands for
+fn name_of_vector(v: &Value) -> Vec<u8> {
+    let num = |k: &str| v[k].as_str().and_then(|t| t.strip_prefix("n:")).and_then(|t| t.parse::<usize>().ok()).unwrap_or(0);
+    let base = match v["kind"].as_str() {
+        Some("n:1") => "00000000000000aa.lru",
+        Some("n:2") => "data.001",
+        _ => "0a00000001.idx",
+    };
+    let mut n = match v["dlen"].as_str() {
+        Some("under") => base.as_bytes()[1..].to_vec(),
+        Some("over") => format!("0{base}").into_bytes(),
+        _ => base.as_bytes().to_vec(),
+    };
+    let ins: &[u8] = match num("wid") {
+        1 => &[0xFF],
+        2 => "\u{e9}".as_bytes(),
+        _ => "\u{20ac}".as_bytes(),
+    };
+    let off = num("off");
+    if off + ins.len() <= n.len() {
+        n[off..off + ins.len()].copy_from_slice(ins);
+    }
+    if v["ext"].as_str() == Some("upper")
+        && let Some(dot) = n.iter().rposition(|&c| c == b'.')
+    {
+        n[dot..].make_ascii_uppercase();
+    }
+    n
+}
+/// curated hostile name lists (no non-UTF-8 name except in the last list)
+fn dirname_seeds() -> Vec<Seed> {
+    let join = |v: Vec<Vec<u8>>| -> Vec<u8> { v.join(&b'\n') };
+    let mut out = Vec::new();
+    for (kind, base) in [("idx", "0a00000001.idx"), ("lru", "00000000000000aa.lru")] {
+        let mut v: Vec<Vec<u8>> = Vec::new();
+        for off in 0..base.len() {
+            v.push(name_with(base, off, "\u{e9}".as_bytes()));
+            v.push(name_with(base, off, "\u{20ac}".as_bytes()));
+        }
+        v.push(base.as_bytes()[1..].to_vec());
+        v.push(base.as_bytes().to_vec());
+        v.push(format!("0{base}").into_bytes());
+        v.push(format!("\u{e9}{}", &base[2..]).into_bytes());
+        v.push(base.to_ascii_uppercase().into_bytes());
+        v.push(format!(".{kind}").into_bytes());
+        v.push(format!("{}.{kind}", "f".repeat(240)).into_bytes());
+        out.push(Seed { name: format!("names/{kind}"), bytes: join(v), real: false });
+    }
+    let data: Vec<&str> = vec!["data.\u{e9}01", "data.\u{e9}0", "data.0\u{e9}", "data.\u{20ac}", "data.+12", "data.0000", "data.00", "data.", "DATA.000", "data.99999", "data.001", "data.1\u{e9}", "data.\u{e9}", "data", ".data.000", "data.000.tmp", "x.TMP", ".tmp", " ", "extract_bu.tmp", ".extract_bu", "shmem", "a b c.idx", "-rf", "\u{feff}.idx"];
+    let mut v: Vec<Vec<u8>> = data.iter().map(|s| s.as_bytes().to_vec()).collect();
+    v.push("\u{e9}".repeat(127).into_bytes());
+    v.push(vec![b'a'; 255]);
+    out.push(Seed { name: "names/data_misc".into(), bytes: join(v), real: false });
+    // names that are not UTF-8
+    let mut v: Vec<Vec<u8>> = Vec::new();
+    for off in [0usize, 1, 2, 9, 10, 13] {
+        v.push(name_with("0a00000001.idx", off, &[0xFF]));
+    }
+    for off in [0usize, 1, 15, 16, 19] {
+        v.push(name_with("00000000000000aa.lru", off, &[0xFF]));
+    }
+    v.push(b"data.\xff01".to_vec());
+    v.push(vec![0xC3]);
+    out.push(Seed { name: "names/nonutf8".into(), bytes: join(v), real: false });
+    out
+}
+
 /// seeds per format index
 fn all_seeds(tmp: &Path) -> Vec<Vec<Seed>> {
     let any = |_: &str| true;
@@ -1089,6 +1285,15 @@ fn all_seeds(tmp: &Path) -> Vec<Vec<Seed>> {
                 v.push(Seed { name: "builder/shmem_v4".into(), bytes: build_shmem_seed(false), real: false });
             }
             "build_info" => v.push(text_seed("build_info", BUILD_INFO_SEED)),
+            "dirnames" => v.extend(dirname_seeds()),
+            "compaction_backup" => {
+                let mut j = vec![1u8];
+                j.extend_from_slice(&4096u32.to_le_bytes());
+                for seg in [3u32, 5, 9] {
+                    j.extend_from_slice(&seg.to_le_bytes());
+                }
+                v.push(Seed { name: "builder/extract_bu".into(), bytes: j, real: false });
+            }
             _ => {}
         }
         let _ = any;
@@ -2212,6 +2417,9 @@ impl Plan {
                 if let Some(r) = seeds[fi].iter().position(|s| s.real) {
                     used.push(r);
                 }
+                if name == "dirnames" {
+                    used = vec![0];
+                }
                 // an explicit seed selector of the vector (e.g. the extended-header variants)
                 if let Some(want) = v["seed"].as_str() {
                     used = seeds[fi].iter().enumerate().filter(|(_, s)| s.name.ends_with(want)).map(|(i, _)| i).collect();
@@ -2238,6 +2446,12 @@ impl Plan {
             let (vi, fi, si) = self.model[j];
             let s = &self.seeds[fi][si];
             let v = &self.vectors[vi];
+            if FORMATS[fi].name == "dirnames" {
+                // a name vector is not patched into a seed: it *is* the hostile name
+                let n = name_of_vector(&v["v"]);
+                let how = format!("name={}", String::from_utf8_lossy(&n));
+                return Job { vector: Some(v["v"].clone()), idx: i, fi, src: "model", seed: "vector".into(), how, bytes: n, exact: false, prog: None };
+            }
             let mut b = s.bytes.clone();
             let lay = layout(FORMATS[fi].name);
             let len = b.len();
@@ -2529,6 +2743,9 @@ fn events_of(job: &Job, ex: &Exec, rerun: bool, first: Option<&Value>, st: &mut 
             e.insert("largest_kib".into(), json!(kib(p["largest"].as_u64().unwrap_or(0) as usize)));
             e.insert("ms".into(), json!(p["us"].as_u64().unwrap_or(0) / 1000));
             e.insert("why".into(), json!(""));
+            if let Some(ob) = p.get("obs") {
+                e.insert("obs".into(), ob.clone());
+            }
         }
         (None, Some((d, _))) => {
             o = d["kind"].as_str().unwrap_or("abort").to_string();
@@ -2768,7 +2985,8 @@ fn child_main(args: &[String]) {
     quiet_panics();
     let tmp = PathBuf::from(arg(args, "--tmp").expect("--tmp"));
     std::fs::create_dir_all(&tmp).expect("tmp dir");
-    let env = Env { tmp, rt: verif_harness::rt(), olds: zbs_olds() };
+    let valid_idx = build_local_idx_seed(&tmp, true).unwrap_or_default();
+    let env = Env { valid_idx, tmp, rt: verif_harness::rt(), olds: zbs_olds() };
     let stdin = std::io::stdin();
     let mut rd = stdin.lock();
     let stdout = std::io::stdout();
@@ -2800,6 +3018,7 @@ fn child_main(args: &[String]) {
             continue;
         }
         let f = &FORMATS[fi];
+        OBS.with(|o| *o.borrow_mut() = None);
         let base = meter_reset();
         let t0 = Instant::now();
         let r = guarded(|| (f.parse)(&payload, &env));
@@ -2812,7 +3031,11 @@ fn child_main(args: &[String]) {
         };
         let more = val.is_some() && f.rt.is_some();
         let (mc, loc) = if o == "panic" { panic_class(&msg) } else { (String::new(), String::new()) };
-        writeln!(out, "{}", json!({"k": "p", "o": o, "msg": trunc(&msg, 200), "mc": mc, "loc": loc, "peak": peak, "largest": largest, "na": na, "us": us, "more": more})).expect("child stdout");
+        let mut line = json!({"k": "p", "o": o, "msg": trunc(&msg, 200), "mc": mc, "loc": loc, "peak": peak, "largest": largest, "na": na, "us": us, "more": more});
+        if let Some(ob) = OBS.with(|o| o.borrow_mut().take()) {
+            line["obs"] = ob;
+        }
+        writeln!(out, "{line}").expect("child stdout");
         out.flush().expect("child stdout");
         if more {
             let t1 = Instant::now();
